@@ -272,7 +272,11 @@ def check_case(case):
                                   "w": {"dtype": "int8"}})
         else:
             xyz.save_ds(pre, pname, engine=eng, compress=3)
-        os.remove(pname + {"h5netcdf": ".h5", "joblib": ".dmp"}[eng])
+        # (wherever a tree put it: this call is not the one judged)
+        for dd in (d, os.getcwd()):
+            for x in os.listdir(dd):
+                if x.startswith("earlier-preview"):
+                    os.remove(os.path.join(dd, x))
     if case["op"] == "merge-widen":
         return check_widen(case)
     ds = make_ds(case)
